@@ -276,11 +276,11 @@ def _run(ctx):
             r5.site("%s recipient ⊢ %s" % (sp, sorted(rec)[0]))
     # the withdraw handler's sender is the cw20 envelope's sender
     recv, edge, region, h, callbb = pr.withdraw_hook
-    cw20_i = common.param_index_of_type(recv, r"^cw20::\S*Cw20ReceiveMsg$")
+    recv0, cw20_i = roles.cw20_envelope(P, "pair")
     hv = P.val_call(recv, recv.body, callbb)
     s_i = common.param_index_of_type(wd, r"^cosmwasm_std::\S*Addr$")
     got = set(ctx.roots(hv[4][s_i]))
-    if got != {"valid(%s)" % P_(recv, cw20_i, ".sender")} and got != {P_(recv, cw20_i, ".sender")}:
+    if got != {"valid(%s)" % P_(recv0, cw20_i, ".sender")} and got != {P_(recv0, cw20_i, ".sender")}:
         r5.fail("C07.R5:withdraw-sender", recv.path, common.span_of_block_term(recv, callbb), "withdraw handler's beneficiary ⊢ %s, expected the cw20 envelope's sender" % sorted(got))
     else:
         r5.site("withdraw beneficiary ⊢ cw20_msg.sender")
